@@ -96,6 +96,7 @@ void cv_on_throw(var obj) {
 
 static void arbitrary_table(void) {
   t = (struct Table*)header_init(&TO.h, Table, AllocHeap);
+  { struct Table any_state; *t = any_state; }      /* fields the invariant below does not pin down are arbitrary */
   t->ktype = ELEM; t->vtype = ELEM; t->ksize = sizeof(struct Elem); t->vsize = sizeof(struct Elem);
   t->nslots = NS; t->data = NS ? (var)POOL_A : NULL; t->sspace0 = &SS0; t->sspace1 = &SS1;
   size_t cnt = 0;
